@@ -1126,8 +1126,8 @@ func (b Bounds) GenParentShape(emit func(*Case)) {
 // EqualSpellings: Maven version strings; the first five order EQUAL (1.0 = 1.0.0 = 1.0.0.0 = 1.0-ga = 1.0.Final).
 var EqualSpellings = []string{"1.0", "1.0.0", "1.0.0.0", "1.0-ga", "1.0.Final", "1.0.1", "1.1"}
 
-// GenCandidateShapes enumerates the Maven shapes that are still under triage (run by C11 only with
-// VERIF_C11_CANDIDATES=1):
+// GenCandidateShapes enumerates further Maven shapes of C11 (equal-ordered version spellings, one artifact
+// declared twice); C11 runs origins-update with the dependencyManagement origin only, see its header:
 //
 //	equal-update    (Update)   manifest {d1: a}; d1 publishes S: S in Subsets(EqualSpellings, 3) x a in EqualSpellings x CfgSets(d1)
 //	equal-override  (override) the same manifests with vulns {d1 [0,f)} f in {1.0, 1.0.0, 1.0.1, 1.1}
